@@ -11,7 +11,7 @@ import sqlite3
 
 from vf import core, monitors
 from vf.gen import fedgen, selgen
-from vf.ref.plan_interp import Interp, NotInterpretable
+from vf.ref.plan_interp import MissingTable, Interp, NotInterpretable
 
 ID = 'C08'
 LEVEL = 'translation_validation'
@@ -75,6 +75,10 @@ def compare(text, ordered, kw, state, limit_mode=None):
             rel = Interp(db, log=log).run(plan)
             got = Interp.rows(Interp(db), rel) if False else db.execute(
                 f'select {", ".join("c%d" % i for i in range(len(rel.descs)))} from {rel.name} order by rowid').fetchall() if rel.descs else []
+        except MissingTable as e:
+            # every table of the statement exists in its integration: a plan that asks an integration for a table it does not have
+            # cannot return what the query returns
+            return 'differ', {'kind': 'fetch-of-a-table-the-integration-does-not-have', 'expected': exp, 'got': str(e)[:200], 'log': log, 'plan': plan}
         except NotInterpretable as e:
             return 'skip:not-interpretable', str(e)[:160]
         kinds = sorted({k for k, _, _ in log})
